@@ -135,6 +135,27 @@ EXPECTED = {
 }
 
 
+EXPECTED["annotation-named-members"] = (
+    # members NAMED like annotation keywords (examples, $comment, title, description, default, definitions ...) are ordinary members
+    {"main.json": {"title": "Snippet", "type": "object", "additionalProperties": False, "required": ["name"],
+                   "properties": {"name": {"type": "string"}, "examples": {"type": "array", "items": {"type": "string"}},
+                                  "$comment": {"type": "string", "maxLength": 3}, "description": {"type": "integer"},
+                                  "default": {"type": "boolean"}, "definitions": {"type": "null"}, "title": {"type": "string"}},
+                   "patternProperties": {"^examples_": {"type": "integer"}},
+                   "dependencies": {"examples": ["name"], "$comment": {"required": ["title"]}}}},
+    [({"name": "a", "examples": ["x = 1"]}, True), ({"name": "a", "examples": [1]}, False), ({"name": "a", "$comment": "toolong"}, False),
+     ({"name": "a", "$comment": "ok", "title": "t"}, True), ({"name": "a", "$comment": "ok"}, False), ({"name": "a", "description": "s"}, False),
+     ({"name": "a", "default": True, "definitions": None, "description": 3}, True), ({"name": "a", "examples_1": "x"}, False), ({"examples": []}, False)])
+EXPECTED["equal-wrappers"] = (
+    # two arrays whose item classes are distinct but structurally identical: both classes are declared, each before its use
+    {"main.json": {"title": "Owner", "type": "object",
+                   "properties": {"cats": {"type": "array", "items": {"$ref": "#/definitions/Cat"}}, "dogs": {"type": "array", "items": {"$ref": "#/definitions/Dog"}},
+                                  "birds": {"type": "array", "items": {"type": "object", "title": "Bird", "properties": {"name": {"type": "string"}}}}},
+                   "definitions": {"Cat": {"type": "object", "properties": {"name": {"type": "string"}}},
+                                   "Dog": {"type": "object", "properties": {"name": {"type": "string"}}}}}},
+    [({"cats": [{"name": "a"}], "dogs": [{"name": "b"}], "birds": [{"name": "c"}]}, True), ({"dogs": [{"name": 1}]}, False), ({"birds": [1]}, False)])
+
+
 def second_generation():
     """the same process generates a SECOND document whose class has the name, property names and content of a class of the
     first, but whose nested classes are named differently: nothing of the first module may be reused"""
